@@ -1524,6 +1524,14 @@ void ApiListener::ReplayLog(const JsonRpcConnection::Ptr& client)
 					break;
 				}
 
+				if (!pmessage) {
+					Log(LogWarning, "ApiListener")
+						<< "Invalid record in cluster log: " << file.second;
+
+					/* Same as above: skip the rest of this file, but still replay the other files. */
+					break;
+				}
+
 				if (pmessage->Get("timestamp") <= peer_ts)
 					continue;
 
